@@ -131,6 +131,44 @@ func PopulatePersistentCache(repo gitstore.Storer) error {
 	return persistent.Commit(repo)
 }
 
+// CatchUp adds the policy and attestations entries that were recorded in the
+// RSL after the persistent cache was last brought up to date. Without this, the
+// cache answers for entries recorded since then using what it knew at the time,
+// for example a policy that has been replaced in the meantime.
+func (p *Persistent) CatchUp(repo gitstore.Storer) error {
+	iterator, err := rsl.GetLatestEntry(repo)
+	if err != nil {
+		return err
+	}
+
+	latestNumber := iterator.GetNumber()
+	scannedUpToNumber := p.AddedAttestationsBeforeNumber
+
+	for iterator.GetNumber() > scannedUpToNumber {
+		if iterator, isReferenceEntry := iterator.(*rsl.ReferenceEntry); isReferenceEntry {
+			switch iterator.RefName {
+			case policyRef:
+				p.InsertPolicyEntryNumber(iterator.GetNumber(), iterator.GetID())
+			case attestations.Ref:
+				p.InsertAttestationEntryNumber(iterator.GetNumber(), iterator.GetID())
+			}
+		}
+
+		iterator, err = rsl.GetParentForEntry(repo, iterator)
+		if err != nil {
+			if errors.Is(err, rsl.ErrRSLEntryNotFound) {
+				break
+			}
+
+			return err
+		}
+	}
+
+	p.SetAddedAttestationsBeforeNumber(latestNumber)
+
+	return nil
+}
+
 // LoadPersistentCache loads the persistent cache from the tip of the local ref.
 // If an instance has already been loaded and a pointer has been stored in
 // memory, that instance is returned.
